@@ -282,7 +282,26 @@ type histOp struct {
 var reInjectName = regexp.MustCompile(`(kessoku\.Inject\[[^\]]+\]\(\s*)"([A-Za-z_][A-Za-z0-9_]*)"`)
 
 // otherVersion is an edited declaration: what the file looked like before the user's last edit.
-func otherVersion(src string, variant int) string {
+var rePkgVar = regexp.MustCompile(`(?m)^var ([a-z]\w*)\b`)
+
+// pkgVarNames lists the package-level variables the package's own (non-generated) files declare.
+func pkgVarNames(dir string) []string {
+	ents, _ := os.ReadDir(dir)
+	var out []string
+	for _, e := range ents {
+		if !strings.HasSuffix(e.Name(), ".go") || strings.HasSuffix(e.Name(), "_band.go") || strings.HasSuffix(e.Name(), "_test.go") {
+			continue
+		}
+		b, _ := os.ReadFile(filepath.Join(dir, e.Name()))
+		for _, m := range rePkgVar.FindAllStringSubmatch(string(b), -1) {
+			out = append(out, m[1])
+		}
+	}
+	sort.Strings(out)
+	return out
+}
+
+func otherVersion(src string, variant int, pkgVars []string) string {
 	switch variant % 4 {
 	case 0: // injectors had other names
 		return reInjectName.ReplaceAllString(src, `${1}"${2}Old"`)
@@ -293,7 +312,10 @@ func otherVersion(src string, variant int) string {
 		return reInjectName.ReplaceAllStringFunc(src, func(m string) string {
 			i++
 			sub := reInjectName.FindStringSubmatch(m)
-			return sub[1] + fmt.Sprintf(`"%s"`, []string{"app", "config", "service", "num", "str", "val", "ctx0", "err0"}[i%8])
+			// ... or like a package-level variable of the package: the stale output then declares a
+			// function of that name
+			names := append(append([]string{}, pkgVars...), "app", "config", "service", "num", "str", "val", "ctx0", "err0")
+			return sub[1] + fmt.Sprintf(`"%s"`, names[(i-1)%len(names)])
 		})
 	default: // an extra injector existed
 		return src + "\nvar _ = kessoku.Inject[struct{ X int }](\"InitGone\", kessoku.Provide(func() struct{ X int } { return struct{ X int }{} }))\n"
@@ -317,7 +339,7 @@ func (e *env) applyOp(dir string, t *target, op histOp) {
 		if err != nil {
 			return
 		}
-		_ = os.WriteFile(p, []byte(otherVersion(string(orig), op.Arg)), 0o644)
+		_ = os.WriteFile(p, []byte(otherVersion(string(orig), op.Arg, pkgVarNames(dir))), 0o644)
 		e.generate(e.CLI, dir, []string{op.File})
 		_ = os.WriteFile(p, orig, 0o644)
 	case "crash":
@@ -333,6 +355,19 @@ func (e *env) applyOp(dir string, t *target, op histOp) {
 			return
 		}
 		_ = os.WriteFile(band, b[:len(b)*op.Arg/1000], 0o644)
+	case "link_out":
+		// generated files kept in a store directory and linked into the package (symlink farms)
+		b, err := os.ReadFile(band)
+		if err != nil {
+			return
+		}
+		store := filepath.Join(filepath.Dir(dir), "store")
+		_ = os.MkdirAll(store, 0o755)
+		tgt := filepath.Join(store, filepath.Base(band))
+		if os.WriteFile(tgt, b, 0o644) != nil || os.Remove(band) != nil {
+			return
+		}
+		_ = os.Symlink(tgt, band)
 	case "reformat":
 		// the previous output went through an editor or a VCS filter: same code, other bytes
 		b, err := os.ReadFile(band)
@@ -390,6 +425,9 @@ func genHistory(r *progen.Rand, t *target) []histOp {
 			}
 			if i > 0 && r.Chance(1, 2) {
 				op = histOp{Op: "reformat", File: f, Arg: r.Intn(4)}
+				if r.Chance(1, 2) {
+					op = histOp{Op: "link_out", File: f}
+				}
 			}
 		case 9:
 			if len(t.files) > 1 {
@@ -521,6 +559,11 @@ func (e *env) checkTarget(t *target, seed uint64, idx int, tier string, c *count
 			// one history per target is always: generated, then reformatted by something else
 			f := t.files[r.Intn(len(t.files))]
 			ops = []histOp{{Op: "gen", File: f}, {Op: "reformat", File: f, Arg: r.Intn(4)}}
+		}
+		if h == nHist-2 && r.Chance(1, 2) {
+			// ... and for half of the targets one is: a stale output that lives behind a symbolic link
+			f := t.files[r.Intn(len(t.files))]
+			ops = []histOp{{Op: "gen_other", File: f, Arg: []int{2, 2, 0, 1, 3}[r.Intn(5)]}, {Op: "link_out", File: f}}
 		}
 		if h >= nHist {
 			f := t.files[r.Intn(len(t.files))]
